@@ -136,6 +136,20 @@ Definition sc_assign_work_unit (n : nat) : C unit :=
       node_send sc_nt n (CRun ixs)
   end.
 
+(* keep assigning while the node holds fewer than two pending tests *)
+Fixpoint sc_top_up (fuel : nat) (n : nat) : C unit :=
+  match fuel with
+  | O => ret tt
+  | S f =>
+      s <- get ;;
+      match sc_wq s with
+      | [] => ret tt
+      | _ =>
+          w <- of_opt (aget n (sc_assigned s)) EKey ;;
+          if pending_of w <? 2 then sc_assign_work_unit n ;;; sc_top_up f n else ret tt
+      end
+  end.
+
 Definition sc_reschedule (n : nat) : C unit :=
   sd <- node_shutting_down sc_nt n ;;
   if sd then ret tt else
@@ -143,8 +157,10 @@ Definition sc_reschedule (n : nat) : C unit :=
   match sc_wq s with
   | [] => node_shutdown sc_nt sc_set_nt n
   | _ =>
+      if negb (ahas n (sc_reg s)) then ret tt else      (* no collection reported yet *)
       w <- of_opt (aget n (sc_assigned s)) EKey ;;
-      if 2 <? pending_of w then ret tt else sc_assign_work_unit n
+      if 2 <? pending_of w then ret tt
+      else sc_assign_work_unit n ;;; (s1 <- get ;; sc_top_up (length (sc_wq s1)) n)
   end.
 
 (* first not-completed nodeid of a workload, in unit order *)
@@ -158,6 +174,17 @@ Fixpoint first_undone (w : workload) : option string :=
       end
   end.
 
+(* work_unit[crashitem] = True in the first unit that has a pending test *)
+Fixpoint mark_crashed (w : workload) : workload :=
+  match w with
+  | [] => []
+  | (sc, u) :: r =>
+      match filter (fun p => negb (snd p)) u with
+      | (nid, _) :: _ => (sc, sset nid true u) :: r
+      | [] => (sc, u) :: mark_crashed r
+      end
+  end.
+
 (* OrderedDict.update(workload) *)
 Definition wq_update (wq add : workload) : workload :=
   fold_left (fun acc p => sset (fst p) (snd p) acc) add wq.
@@ -166,10 +193,14 @@ Definition sc_remove_node (n : nat) : C (option string) :=
   s <- get ;;
   w <- of_opt (aget n (sc_assigned s)) EKey ;;
   put (sc_set_assigned s (adel n (sc_assigned s))) ;;;
+  (s0 <- get ;; if sc_collection_is_completed s0 then ret tt
+                else put (sc_set_reg s0 (adel n (sc_reg s0)))) ;;;
   if pending_of w =? 0 then ret None else
   crash <- of_opt (first_undone w) EOther ;;
   s1 <- get ;;
-  put (sc_set_wq s1 (wq_update (sc_wq s1) w)) ;;;
+  (* only the units that still have pending tests go back, minus the crashed test *)
+  put (sc_set_wq s1 (wq_update (sc_wq s1)
+                       (filter (fun p => negb (unit_pending (snd p) =? 0)) (mark_crashed w)))) ;;;
   s2 <- get ;;
   mfor (akeys (sc_assigned s2)) sc_reschedule ;;;
   ret (Some crash).
@@ -183,7 +214,8 @@ Definition sc_add_node_collection (n : nat) (coll : list string) : C unit :=
         if coll_eqb coll (c0 :: cr) then put (sc_set_reg s (aset n coll (sc_reg s)))
         else
           other <- of_opt (first_key (sc_reg s)) EOther ;;
-          emit (OLogDiff other n)
+          emit (OLogDiff other n) ;;;
+          node_shutdown sc_nt sc_set_nt n
     | _ => raise EAssert
     end
   else put (sc_set_reg s (aset n coll (sc_reg s))).
